@@ -17,8 +17,64 @@ SEEDS = [
 ]
 
 
+def loop_rules(rng):
+    """1..3 rules whose conditions nest loops of every kind (integer ranges and lists, string sets, string lists, arrays and dictionaries of
+    the tests and pe modules) and use the loop variables in every type context, well typed or not: the loop-variable table of the compiler
+    is shared between consecutive loops, rules and nesting depths"""
+    r = rng
+
+    def loop(d, vars_):
+        names = ["i", "j", "k", "v", "s", "x", "y"]
+        fresh = [n for n in names if n not in vars_]
+        a, b = (fresh + ["q", "w"])[:2]
+        kind = r.below(9)
+        quant = r.choice(["any", "all", "none", "2", "1"])
+        if kind == 0:
+            head, nv = "for %s %s in (%d..%d)" % (quant, a, r.below(3), r.below(5)), [a]
+        elif kind == 1:
+            head, nv = "for %s %s in (1, 2, filesize)" % (quant, a), [a]
+        elif kind == 2:
+            head, nv = "for %s %s in tests.integer_array" % (quant, a), [a]
+        elif kind == 3:
+            head, nv = "for %s %s in tests.string_array" % (quant, a), [a]
+        elif kind == 4:
+            head, nv = "for %s %s, %s in tests.%s" % (quant, a, b, r.choice(["struct_dict", "integer_dict", "string_dict", "empty_struct_dict"])), [a, b]
+        elif kind == 5:
+            head, nv = "for %s %s in tests.%s" % (quant, a, r.choice(["struct_array", "empty_struct_array"])), [a]
+        elif kind == 6:
+            head, nv = "for %s %s in pe.%s" % (quant, a, r.choice(["sections", "version_info_list", "import_details"])), [a]
+        elif kind == 7:
+            head, nv = "for %s %s, %s in pe.version_info" % (quant, a, b), [a, b]
+        else:
+            head, nv = "for %s %s in (\"a\", \"bc\")" % (quant, a), [a]
+        allv = vars_ + nv
+        return "%s : ( %s )" % (head, body(d - 1, allv))
+
+    def use(v):
+        return r.choice(["%s", "not %s", "%s == 1", "%s == \"foo\"", "%s > 0", "%s.i == 1", "%s.s == \"foo\"", "%s of them", "#a > %s", "%s contains \"a\"",
+                         "%s matches /a/", "@a[%s] > 0", "%s + 1 > 0", "defined %s", "%s.name == \"x\"", "tests.isum(%s, 1) == 2", "$a at %s"]) % v
+
+    def body(d, vars_):
+        parts = []
+        for _ in range(r.range(1, 2)):
+            k = r.below(4)
+            if d > 0 and k < 2:
+                parts.append(loop(d, vars_))
+            elif vars_ and k < 3:
+                parts.append(use(r.choice(vars_)))
+            else:
+                parts.append(r.choice(["true", "$a", "filesize > 0", "any of them", "for any of them : ( $ )"]))
+        return (" %s " % r.choice(["and", "or"])).join(parts)
+    src = 'import "tests"\nimport "pe"\n'
+    for n in range(r.range(1, 3)):
+        src += 'rule lr%d { strings: $a = "abc" condition: %s }\n' % (n, (" %s " % r.choice(["and", "or"])).join(loop(r.range(1, 3), []) for _ in range(r.range(1, 3))))
+    return src
+
+
 def mutants(rng, n):
     out = []
+    for _ in range(n // 4):
+        out.append(("loops", loop_rules(rng.fork())))
     for src in SEEDS:
         toks = [m.group(0) for m in TOK.finditer(src)]
         # truncation at every token boundary
@@ -149,7 +205,7 @@ def run(chk):
     chk.note(evaluations=len(cases), distinct_nontrivial=len(nontriv), input_kinds=kinds, traces_validated_against_impl=okc,
              sanitizer="ASan+UBSan build of libyara and harness, LeakSanitizer check at the end of every case",
              rule="token-level truncations/deletions/duplications of 6 seed rule files covering all sections, oversized constructs, "
-                  "byte-level mutations, include loops, include chains of depth 1..3*YR_MAX_INCLUDE_DEPTH ending in a rule / a syntax error / a missing file; plus the constant-expression operand sweep; distinct = (kind, error count class, size class)")
+                  "byte-level mutations, generated rules nesting loops of every kind with the loop variables in every type context, include loops, include chains of depth 1..3*YR_MAX_INCLUDE_DEPTH ending in a rule / a syntax error / a missing file; plus the constant-expression operand sweep; distinct = (kind, error count class, size class)")
     chk.sample({"kind": muts[5][0], "source": muts[5][1] if isinstance(muts[5][1], str) else muts[5][1].hex()})
     chk.sample({"kind": muts[-1][0], "source": muts[-1][1] if isinstance(muts[-1][1], str) else muts[-1][1].hex()})
     chk.assumptions += ["accept/reject of the grammar itself is not modelled: only accounting, diagnosis, crash/leak freedom and the aftermath are checked"]
